@@ -3,6 +3,18 @@
 COMMON = "Trusted: the harness's mini API server and event loop reproduce what the reconcilers see (list order chosen by the case, work-queue coalescing, status update = status + annotations, followed by a service event); its reference oracles (pool arithmetic, admission, sharing rule) are written from the property text and the user documentation. Kubernetes admission invariants (>=1 port, families consistent with the policy, immutable primary family) are assumed."
 
 TEXT = {
+    "C17": {
+        "level": "Exploration with injected faults, in real time: generated sequences of Set calls (incl. empty sets and attribute-only changes), peer-side connection drops (at once / after k more UPDATEs), an optional handshake with an unexpected ASN and short pauses are run against the real native session (NewSession, run, connect, dialMD5, consumeBGP, sendUpdates, Close) over loopback TCP under the race detector; a scripted in-process peer decodes the stream with the independent RFC 4271 decoder and its table for the current connection must equal the last requested set; after Close no connection attempt or message may follow.",
+        "design_ref": "DESIGN.md section 18",
+        "note": "Trusted: the scripted peer and its decoder. Timing of changes relative to the sender loop is sampled by the OS scheduler, not enumerated; convergence is awaited for 3 s + 10 s grace (normal: < 5 ms), a verdict by timeout is labelled as such. The deterministic synctest engine of the design was not built (see DESIGN.md).",
+        "technique": "stateful property-based testing with fault injection against a scripted peer (rapid, -race)",
+    },
+    "C19": {
+        "level": "Exploration on a virtual clock: the real debouncer of internal/bgp/frr/config.go and the frr-k8s variant run inside testing/synctest bubbles (go1.26.8); submissions (new, identical, re-apply, older) at inter-arrival times chosen around the debounce and retry intervals, finite failure patterns and a slow reload action are generated; the observed apply sequence (time, configuration, outcome) must equal that of an independent event-driven reference model, submitters must never block longer than the action, and the clauses of the statement are re-checked directly.",
+        "design_ref": "DESIGN.md section 20",
+        "note": "Trusted: go1.26.8's testing/synctest and the assumption that the code under test (time, channels, select) behaves under go1.26.8 as under go1.23.6; simultaneous expiry and submission may resolve either way.",
+        "technique": "property-based testing on a virtual clock against a reference model (rapid + testing/synctest)",
+    },
     "C13": {
         "level": "Exploration: (1) generated histories of announce / re-announce with another interface set / withdraw / ARP packets (request or reply x destination x target x interface) / replay of the unsolicited-announcement queue, against the real Announce and real arpResponders over an in-memory packet connection, judged by a reference model after every operation (reply iff announced and covered, reference counts, gratuitous frames); (2) concurrent runs under the race detector: requester goroutines against the real responder loop while an updater toggles and re-scopes a co-tenant.",
         "design_ref": "DESIGN.md section 14",
@@ -102,7 +114,5 @@ TEXT = {
 }
 
 NOT_APPLICABLE = {
-    "C17": "check not built yet (work in progress; see DESIGN.md for the planned generated-input check)",
-    "C19": "check not built yet (work in progress; see DESIGN.md for the planned generated-input check)",
     "C20": "check not built yet (work in progress; see DESIGN.md for the planned generated-input check)"
 }
